@@ -817,3 +817,223 @@ def toml_family(seed, n):
     return summarize(run_pool(toml_case, [(seed, i) for i in range(n)]),
                      "real TOML files written to a temp dir for all 11 kinds (scalars, lists, 1-D/2-D tables, limits, optional keys dropped at random; LinReg's own loader included): loader vs constructor twin (_params, limits, params()/limits() row, solved host system); files lacking a mandatory key -> KeyError; wrongly typed values -> ValueError",
                      "one component per file; ~60 % well-formed, 20 % missing key, 20 % wrong type")
+
+
+# ============================================================================================================ C17 / C18
+class _NoBar:
+    """progress bar stub: tqdm's multiprocessing write-lock can dead-lock inside forked pool workers; the bar is not part of any property"""
+    total = 0
+    def __init__(self, *a, **k): pass
+    def __enter__(self): return self
+    def __exit__(self, *a): return False
+    def update(self, *a, **k): pass
+    def close(self): pass
+
+
+def _quiet_tqdm():
+    import sysloss.system as SY
+    SY.tqdm = _NoBar
+
+
+def _battery_model(rnd, cap0, v0, r0, steps):
+    """battery model for the callbacks: every depletion call removes cap0/steps (so every run ends after <= steps+1 calls);
+    voltage sags and impedance rises with the depth of discharge.  The callbacks record what they receive."""
+    st = {"cap": cap0, "v": v0, "r": r0, "probe": 0, "deplete": 0, "calls": []}
+    def pfunc():
+        st["probe"] += 1
+        return (st["cap"], st["v"], st["r"])
+    def dfunc(dt, cur):
+        st["deplete"] += 1
+        st["calls"].append((dt, float(cur), st["v"], st["r"]))
+        st["cap"] -= cap0 / steps
+        frac = max(st["cap"], 0.0) / cap0
+        st["v"] = v0 * (0.75 + 0.25 * frac); st["r"] = r0 * (2.0 - frac)
+        return (st["cap"], st["v"], st["r"])
+    return st, pfunc, dfunc
+
+
+def analysis_case(args):
+    """C17: every analysis leaves the system, its components and the arguments untouched; batt_life restores the battery"""
+    import tempfile, os, io as _io, contextlib
+    seed, idx = args
+    rnd = _rnd(seed, idx)
+    from . import hist
+    _quiet_tqdm()
+    recipe = gen.random_system(rnd, max_nodes=7, n_sources=(1, 2), p_mux=0.3, p_table=0.4, p_limits=0.7, p_phases=0.5, p_rails=0.4, p_groups=0.4)
+    # limits given in non-ascending magnitude order / on negative rails, shared limit dict objects
+    for op in recipe["ops"]:
+        if "comp" in op and rnd.random() < 0.3:
+            op["comp"]["args"].setdefault("limits", {})[rnd.choice(["vo", "vi", "io", "pl"])] = rnd.choice([[-5.5, -4.5], [6.0, 0.0], [-1e6, 0.0]])
+    out = {"hash": _hash(recipe), "failures": [], "nontrivial": True, "sample": None, "outcome": None}
+    def F(key, text): out["failures"].append({"key": key, "text": text, "props": ["C17"], "recipe": recipe})
+    s, _ = gen.build(recipe)
+    # the reference snapshot is taken on the freshly built system BEFORE its first analysis call
+    def snap():
+        d = hist.snap_internal(s)
+        d.pop("objs", None)
+        d["hidx"] = None
+        d["ipr"] = {s._g[i]._params["name"]: repr(sorted((k, repr(v)) for k, v in vars(s._g[i]._ipr).items() if k != "_intp")) if s._g[i]._ipr is not None else None for i in s._g.node_indices()}
+        import sysloss.components as C
+        d["globals"] = json.dumps([C.LIMITS_DEFAULT, C.STATE_DEFAULT, C.STATE_OFF], sort_keys=True)
+        return d
+    ref = snap()
+    tags = {"Tag": "x"}; tags0 = copy.deepcopy(tags)
+    conf = None
+    first = None
+    calls = ["solve", "rail_rep", "params", "limits", "phases", "tree", "save", "plot_interp", "make_diag", "make_hdiag", "batt_life", "solve_tags"]
+    rnd.shuffle(calls)
+    fd, p = tempfile.mkstemp(suffix=".json"); os.close(fd)
+    import matplotlib
+    matplotlib.use("Agg")
+    import matplotlib.pyplot as plt
+    try:
+        for c in calls[: rnd.randint(3, len(calls))]:
+            try:
+                with contextlib.redirect_stdout(_io.StringIO()):
+                    if c == "solve":
+                        df = s.solve(ta=31.0)
+                        if first is None: first = df.to_string()
+                        elif df.to_string() != first: F("readonly.repeat", "repeating solve() gave a different table")
+                    elif c == "solve_tags": s.solve(tags=tags, energy=True)
+                    elif c == "rail_rep": s.rail_rep()
+                    elif c == "params": s.params(limits=True)
+                    elif c == "limits": s.limits()
+                    elif c == "phases": s.phases()
+                    elif c == "tree": s.tree()
+                    elif c == "save": s.save(p)
+                    elif c == "plot_interp":
+                        for nm in list(s._g.attrs["nodes"])[:3]:
+                            fig = s.plot_interp(nm, plot3d=rnd.random() < 0.3)
+                            plt.close("all")
+                    elif c in ("make_diag", "make_hdiag"):
+                        import sysloss.diagram as D
+                        conf = D.get_conf(); conf["node"]["Converter"] = {"fillcolor": "red"}; conf0 = copy.deepcopy(conf)
+                        getattr(D, c)(s, fname=p.replace(".json", ".dot"), config=conf)
+                        if conf != conf0: F("readonly.config", "%s changed the caller's configuration dictionary" % c)
+                        try: os.unlink(p.replace(".json", ".dot"))
+                        except OSError: pass
+                    elif c == "batt_life":
+                        src = [n for n in s._g.attrs["nodes"] if type(s._g[s._g.attrs["nodes"][n]]).__name__ == "Source"][0]
+                        st, pf, df_ = _battery_model(rnd, 0.002, abs(s._g[s._g.attrs["nodes"][src]]._params["vo"]) or 3.0, 0.05, 8)
+                        kfail = rnd.choice([None, None, 1, 2, 3, 5])
+                        def dfx(dt, cur, df_=df_, st=st, kfail=kfail):
+                            if kfail is not None and st["deplete"] + 1 == kfail: st["deplete"] += 1; raise RuntimeError("battery model failed at call %d" % kfail)
+                            return df_(dt, cur)
+                        def pfx(pf=pf, kfail=kfail):
+                            if kfail == 1 and rnd.random() < 0.3: raise RuntimeError("probe failed")
+                            return pf()
+                        try:
+                            s.batt_life(src, cutoff=0.5, pfunc=pfx, dfunc=dfx)
+                        except (RuntimeError, ValueError, ZeroDivisionError):
+                            pass
+            except (ValueError, RuntimeError) as e:
+                if "Unstable" not in str(e) and "Steady" not in str(e) and "valid" not in str(e): F("readonly.exception", "%s raised %s: %s" % (c, type(e).__name__, str(e)[:80]))
+            except Exception as e:
+                F("readonly.exception", "%s raised %s: %s" % (c, type(e).__name__, str(e)[:80]))
+            now = snap()
+            if now != ref:
+                d = [k for k in ref if ref[k] != now[k]]
+                F("readonly.state", "%s changed the system: %s" % (c, [(k, [(n_, ref[k].get(n_), now[k].get(n_)) for n_ in ref[k] if isinstance(ref[k], dict) and ref[k].get(n_) != now[k].get(n_)][:2] if isinstance(ref[k], dict) else None) for k in d])); break
+            if tags != tags0: F("readonly.tags", "%s changed the caller's tags dictionary" % c); break
+    finally:
+        try: os.unlink(p)
+        except OSError: pass
+        plt.close("all")
+    if idx < 3: out["sample"] = {"system": gen.short(recipe)[:6], "calls": calls[:6], "verdict": "%d failures" % len(out["failures"])}
+    return out
+
+
+def analysis_family(seed, n):
+    return summarize(run_pool(analysis_case, [(seed, i) for i in range(n)]),
+                     "random systems (tables, limits incl. non-ascending / negative pairs, rails, groups, phases); random interleavings of solve, rail_rep, params, limits, phases, tree, save, plot_interp, make_diag, make_hdiag, batt_life (callbacks raising at the k-th call, k in {1,2,3,5}); state snapshot (registries, graph, every component's _params/_limits/interpolator, module constants) taken BEFORE the first analysis and compared after every call; caller's tags/config compared",
+                     "trees <= 7 components; 3..12 analysis calls per system")
+
+
+def battlife_case(args):
+    """C18 (+ C17 restoration): recording callbacks + independent re-solve of every step"""
+    seed, idx = args
+    rnd = _rnd(seed, idx)
+    _quiet_tqdm()
+    recipe = gen.random_system(rnd, max_nodes=6, n_sources=(1, 2), p_mux=0.2, p_phases=0.5, p_neg=0.0, p_dead_source=0.0, p_table=0.2)
+    out = {"hash": _hash([recipe, idx]), "failures": [], "nontrivial": True, "sample": None, "outcome": None}
+    def F(key, text, pr=("C18",)): out["failures"].append({"key": key, "text": text, "props": list(pr), "recipe": recipe})
+    s, _ = gen.build(recipe); m = Model.of(recipe)
+    srcs = m.sources(); batt = rnd.choice(srcs)
+    bnode = s._g[s._g.attrs["nodes"][batt]]
+    vo0, rs0 = bnode._params["vo"], bnode._params["rs"]
+    big = rnd.random() < 0.15
+    cap0 = rnd.choice([150.0, 400.0]) if big else rnd.choice([0.0004, 0.002, 0.01])
+    # the battery replaces a source of the system: its voltage stays in the range the system was sized for (modest drops)
+    v0 = abs(vo0) if vo0 else 3.7; r0 = rnd.choice([0.0, 0.02, 0.1]); cutoff = v0 * rnd.choice([0.5, 0.8, 0.9])
+    steps = rnd.choice([3, 7, 12, 25])
+    st, pf, df_ = _battery_model(rnd, cap0, v0, r0, steps)
+    # name that is not a source -> ValueError
+    others = [n for n in m.nodes if m.nodes[n].type != "SOURCE"]
+    if others and idx % 5 == 0:
+        try:
+            s.batt_life(rnd.choice(others), cutoff=cutoff, pfunc=pf, dfunc=df_); F("batt.notsource", "a name that is not a Source was accepted")
+        except ValueError: pass
+        except Exception as e: F("batt.notsource", "non-source battery raised %s instead of ValueError" % type(e).__name__)
+        st["probe"] = st["deplete"] = 0; st["calls"] = []
+    import io as _io, contextlib
+    try:
+        with contextlib.redirect_stderr(_io.StringIO()):
+            log = s.batt_life(batt, cutoff=cutoff, pfunc=pf, dfunc=df_)
+    except (ValueError, RuntimeError, ZeroDivisionError) as e:
+        out["outcome"] = type(e).__name__
+        if (bnode._params["vo"], bnode._params["rs"]) != (vo0, rs0): F("batt.restore", "battery vo/rs not restored after %s" % type(e).__name__, ("C17", "C18"))
+        return out
+    out["outcome"] = "log"
+    if (bnode._params["vo"], bnode._params["rs"]) != (vo0, rs0): F("batt.restore", "battery vo/rs not restored on return (%r, %r) != (%r, %r)" % (bnode._params["vo"], bnode._params["rs"], vo0, rs0), ("C17", "C18"))
+    if st["probe"] != 1: F("batt.probe", "battery probed %d times" % st["probe"])
+    calls = st["calls"]
+    T, Cp, V, R = [list(log[c]) for c in ("Time (s)", "Capacity (Ah)", "Voltage (V)", "Resistance (Ohm)")]
+    if not (T[0] == 0.0 and Cp[0] == cap0 and V[0] == v0 and R[0] == r0): F("batt.initial", "log does not start from the probed state")
+    # replay the model independently to know the state sequence
+    states = [(cap0, v0, r0)]
+    st2, pf2, df2 = _battery_model(rnd, cap0, v0, r0, steps)
+    phases = list(m.phases) if m.phases else [""]
+    exp_rows, t = [(0.0, cap0, v0, r0)], 0.0
+    alive = cap0 > 0 and v0 > cutoff
+    k = 0
+    while alive and k < len(calls) + 2:
+        ph = phases[k % len(phases)]
+        # independent steady state for the battery's present voltage and impedance in that phase
+        bnode._params["vo"], bnode._params["rs"] = states[-1][1], states[-1][2]
+        try:
+            dfp = s.solve(phase=ph, maxiter=500) if ph else s.solve(maxiter=500)
+        except (RuntimeError, ValueError):
+            out["outcome"] = "no steady state at some step (case skipped)"; return out
+        finally:
+            bnode._params["vo"], bnode._params["rs"] = vo0, rs0
+        rows, _ = oracle.rows_by_key(dfp)
+        ib = float(rows[(batt, ph)]["Iout (A)"])
+        dt = m.phases[ph] if ph else (cap0 / ib * 3.6 if ib else float("inf"))
+        if k >= len(calls): F("batt.calls", "depletion stopped after %d calls although the battery was still alive" % len(calls)); break
+        cdt, ccur, cv, cr = calls[k]
+        if not oracle.close(cdt, dt, 1e-4, 1e-12): F("batt.duration", "depletion call %d received duration %r, expected %r (phase %r)" % (k + 1, cdt, dt, ph)); break
+        if not oracle.close(ccur, ib, 1e-4, 1e-9): F("batt.current", "depletion call %d received current %r, the battery's steady-state output current for (v=%g, r=%g, phase %r) is %r" % (k + 1, ccur, states[-1][1], states[-1][2], ph, ib)); break
+        ns = df2(dt, ib)
+        # follow the REAL model's own sequence (it saw the real currents): use recorded next state
+        states.append(ns)
+        t += dt
+        alive = ns[0] > 0 and ns[1] > cutoff
+        if alive: exp_rows.append((t, ns[0], ns[1], ns[2]))
+        k += 1
+    if not out["failures"]:
+        if len(calls) != k: F("batt.calls", "%d depletion calls, expected %d" % (len(calls), k))
+        if len(T) != len(exp_rows): F("batt.rows", "log has %d rows, expected %d (initial state + every later state with capacity > 0 and voltage > cutoff)" % (len(T), len(exp_rows)))
+        else:
+            for j, (a, b) in enumerate(zip(zip(T, Cp, V, R), exp_rows)):
+                if not all(oracle.close(x, y, 1e-4, 1e-9) for x, y in zip(a, b)): F("batt.log", "log row %d = %s, expected %s" % (j, a, b)); break
+        import math
+        finite = all(math.isfinite(c[0]) and c[0] > 0 for c in calls)       # an idle battery without phases has an infinite step time: outside the quantifier
+        if finite and any(T[j + 1] <= T[j] for j in range(len(T) - 1)): F("batt.time", "time column is not strictly increasing: %s" % T[:6])
+    if idx < 3: out["sample"] = {"battery": batt, "cap0": cap0, "rows": len(T), "depletion calls": len(calls), "verdict": "%d failures" % len(out["failures"])}
+    return out
+
+
+def battlife_family(seed, n):
+    return summarize(run_pool(battlife_case, [(seed, i) for i in range(n)]),
+                     "random systems with/without phases, battery = any source, capacities below and above 100 Ah, random cutoffs, linear-sag battery model with recording callbacks; every depletion call is compared with an independent solve() of the system at the battery's present voltage / impedance in the cycling phase; log rows, times, restoration, non-source name",
+                     "trees <= 6 components; runs of 3..26 depletion calls")
